@@ -106,6 +106,13 @@ class StoreSQLite(Store):
         sqlite3.register_adapter(np.int64, int)
         sqlite3.register_adapter(np.int32, int)
         sqlite3.register_adapter(np.int16, int)
+        sqlite3.register_adapter(np.int8, int)
+        sqlite3.register_adapter(np.uint64, int)
+        sqlite3.register_adapter(np.uint32, int)
+        sqlite3.register_adapter(np.uint16, int)
+        sqlite3.register_adapter(np.uint8, int)
+        sqlite3.register_adapter(np.float32, float)
+        sqlite3.register_adapter(np.float16, float)
         sqlite3.register_adapter(np.bool_, bool)
         # common python types
         sqlite3.register_adapter(Fraction, str)
